@@ -597,7 +597,8 @@ where
             std::hash::BuildHasherDefault<nohash_hasher::NoHashHasher<DltChar4>>,
         >,
          last_lcw_refresh_index: &mut u32| {
-            if force_refresh || last_regular_refresh_index.saturating_add(100_000) < last_msg_index {
+            if force_refresh || last_regular_refresh_index.saturating_add(100_000) < last_msg_index
+            {
                 // update all marked lifecycles:
                 let mut nr_lcs_to_update = lcs_to_refresh.len();
                 for vs in ecu_map.values() {
